@@ -94,6 +94,37 @@ pub enum Prov {
     Derived,
     /// public key only: get_public_key() of a round-tripped private key
     DerivedFromRoundTripped,
+    /// deserialised from a stored artefact whose first 32 bytes were never written (read back as zero)
+    FromBytesZeroPrefix,
+    /// deserialised from a stored artefact that was lost entirely (reads back as all 0x00)
+    FromBytesLostZero,
+    /// public key only: lost write that reads back as all 0xFF
+    FromBytesLostFF,
+    /// deserialised from a stored artefact with seeded bit rot outside the range-checked fields
+    FromBytesBitRot,
+}
+
+impl Prov {
+    pub fn faulted(&self) -> bool {
+        matches!(self, Prov::FromBytesZeroPrefix | Prov::FromBytesLostZero | Prov::FromBytesLostFF | Prov::FromBytesBitRot)
+    }
+}
+
+/// Apply the storage fault of a faulted provenance to honest serialised bytes.
+pub fn storage_fault(prov: Prov, bytes: &mut [u8], rot_lo: usize, rot_hi: usize, stream: &[u8]) {
+    match prov {
+        Prov::FromBytesZeroPrefix => bytes[..32].iter_mut().for_each(|b| *b = 0),
+        Prov::FromBytesLostZero => bytes.iter_mut().for_each(|b| *b = 0),
+        Prov::FromBytesLostFF => bytes.iter_mut().for_each(|b| *b = 0xFF),
+        Prov::FromBytesBitRot => {
+            for (i, ch) in stream.chunks(4).take(6).enumerate() {
+                let r = u32::from_le_bytes([ch[0], ch[1 % ch.len()], ch[2 % ch.len()], ch[3 % ch.len()]]) as usize;
+                let pos = rot_lo + r % (rot_hi - rot_lo);
+                bytes[pos] ^= 1 << (i % 8);
+            }
+        }
+        _ => {}
+    }
 }
 
 #[derive(Clone, Copy, Debug, PartialEq, Eq)]
@@ -273,6 +304,15 @@ macro_rules! set_impl {
                                 .map_err(|e| format!("harness: round trip failed: {e}"))?;
                             Ok(sk2.clone())
                         }
+                        Prov::FromBytesZeroPrefix | Prov::FromBytesLostZero | Prov::FromBytesBitRot => {
+                            let mut b = KG::keygen_from_seed(&c.seed).1.into_bytes();
+                            // bit rot only where every value is valid: rho, K, tr and the t0 region
+                            let (s0, s1) = INFO.s_region();
+                            let in_t0 = c.stream.first().map(|x| x % 2 == 0).unwrap_or(true);
+                            let (lo, hi) = if in_t0 { (s1, m::SK_LEN) } else { (0, s0) };
+                            storage_fault(c.prov, &mut b, lo, hi, &c.stream);
+                            PrivateKey::try_from_bytes(b).map_err(|_| "unavailable: faulted private key is (rightly) rejected".to_string())
+                        }
                         _ => Err("harness: not a private-key provenance".into()),
                     }
                 }
@@ -297,6 +337,11 @@ macro_rules! set_impl {
                             let sk2 = PrivateKey::try_from_bytes(sk.into_bytes())
                                 .map_err(|e| format!("harness: round trip failed: {e}"))?;
                             Ok(sk2.get_public_key())
+                        }
+                        Prov::FromBytesZeroPrefix | Prov::FromBytesLostZero | Prov::FromBytesLostFF | Prov::FromBytesBitRot => {
+                            let mut b = KG::keygen_from_seed(&c.seed).0.into_bytes();
+                            storage_fault(c.prov, &mut b, 0, m::PK_LEN, &c.stream);
+                            PublicKey::try_from_bytes(b).map_err(|_| "unavailable: faulted public key is rejected".to_string())
                         }
                     }
                 }
@@ -413,7 +458,7 @@ macro_rules! set_impl {
                                 match u {
                                     Use::Verify(mode) => {
                                         let sig = sig_for(signer.as_ref().unwrap(), *mode)?;
-                                        if !verify_raw(&pk, &c.msg, &sig, &c.ctx, *mode) {
+                                        if !verify_raw(&pk, &c.msg, &sig, &c.ctx, *mode) && !c.prov.faulted() {
                                             return Err("precondition: honest signature did not verify".into());
                                         }
                                     }
